@@ -499,7 +499,7 @@ def binding_selftest(pid, flat, transport, wd, us_mode):
 def b2(pid, tier, seed, wd, rep):
     nh = 120 if tier == "quick" else 2500
     nsteps = 90
-    stats = dict(histories=0, events=0, trace_lines=0, rejected=0, tlc_runs=0, t=0.0)
+    stats = dict(histories=0, events=0, trace_lines=0, rejected=0, tlc_runs=0, t=0.0, line_kinds={})
     t0 = time.time()
     for transport in ("udp", "tcp"):
         rng = random.Random(seed * 1000003 + (1 if transport == "udp" else 2))
@@ -549,6 +549,9 @@ def b2(pid, tier, seed, wd, rep):
                 continue
             hist_lines.append((sc, lines))
             stats["histories"] += 1
+            for ln in lines:
+                k = ln["ev"] + ("/" + ln["ret"]["k"] if ln["ev"] in ("poll", "recv_resp", "send_req", "cancel", "configure") else "")
+                stats["line_kinds"][k] = stats["line_kinds"].get(k, 0) + 1
         # validate in batches; on rejection drop that history and go on with the rest
         batch = 400
         groups = [[h for h in hist_lines if not h[0].get("us") and not h[0].get("many")], [h for h in hist_lines if h[0].get("us")],
@@ -591,6 +594,12 @@ def b2(pid, tier, seed, wd, rep):
                 stats["trace_lines"] += sum(len(x[1]) for x in pending[:hi])
                 pending = pending[hi + 1:]
     stats["t"] = round(time.time() - t0, 1)
+    # vacuity: every action of the trace specification, and every kind of answer, occurs in the recorded runs
+    need = ["send_req/transmit", "send_req/err", "send_other", "recv_resp/drop", "recv_resp/response", "recv_other", "poll/wait", "poll/transmit",
+            "poll/timeout", "poll/cancelled", "cancel/ok", "cancel/none", "cancel_rt", "configure/ok", "configure/none", "set_remote", "set_local", "reset"]
+    missing = [k for k in need if not stats["line_kinds"].get(k)]
+    if missing and stats["rejected"] == 0:
+        raise ToolError("vacuity: the recorded runs never contain %s" % missing)
     return stats
 
 
